@@ -960,7 +960,8 @@ class State:
             ctx.missing(rule, "tokenize", "Lexer::tokenize")
         else:
             o = Origins(tk, lib)
-            oks = [(bb, s) for bb, _, s in region_aggs(tk, tk.reachable(), "std::result::Result") if s["rv"]["variant"] == "Ok"]
+            # the Ok values tokenize itself returns (an inlined helper may build its own intermediate Ok(..))
+            oks = [(bb, None) for bb, _ in RT.ok_values(tk)[0]]
             eofpush = [bb for bb, t in tk.calls() if t["callee"].endswith("::push_back") and
                        any(term_mentions(x, lambda y: y[0] == "agg" and y[1] == TOKEN + "::Eof") for x in o.of_operand(t["args"][1]))]
             ok = len(oks) == 1 and len(eofpush) == 1 and tk.dominates(eofpush[0], oks[0][0])
